@@ -470,4 +470,71 @@ example : lineCoordinates 0 10 none (some (5/2)) .spacing false = .ok [0, 5/2, 5
 example : lineCoordinates 0 7 none (some 2) .region true = .ok [1, 3, 5, 7] := by decide +kernel
 example : intervals 0 7 2 = 4 ∧ intervals 0 5 2 = 2 ∧ intervals 0 1 5 = 1 := by decide +kernel
 
+/-! ### The regenerated source satisfies the property
+    (the property theorems above, transported along the bridges to the definitions translated from /repo's source on this run) -/
+
+theorem adjOf_spacing : adjOf "spacing" = .spacing := by decide
+theorem adjOf_region : adjOf "region" = .region := by decide
+
+/-- The translated `line_coordinates`, spacing given: evenly spaced nodes from `start`, `intervals` of them, with the requested spacing for
+    `adjust="region"` and `extent/intervals` for `adjust="spacing"`; midpoints for pixel registration. -/
+theorem src_line_spacing_normal_form (start stop sp : Rat) (hsp : 0 < sp) (hle : start ≤ stop) (pixel : Bool) :
+    Gen.lineCoordinates start stop none (some sp) "spacing" pixel
+        = .ok (nodes start ((stop - start) / (intervals start stop sp : Rat)) (intervals start stop sp) pixel) ∧
+    Gen.lineCoordinates start stop none (some sp) "region" pixel
+        = .ok (nodes start sp (intervals start stop sp) pixel) := by
+  constructor
+  · rw [gen_lc_none, adjOf_spacing, line_spacing_normal_form start stop sp hsp hle .spacing (by decide) pixel]
+    simp
+  · rw [gen_lc_none, adjOf_region, line_spacing_normal_form start stop sp hsp hle .region (by decide) pixel]
+    simp
+
+/-- The translated `line_coordinates`, size given: `size` nodes hitting both bounds / `size` pixel midpoints. -/
+theorem src_line_size_normal_form (start stop : Rat) (n : Nat) (adj : String) :
+    (2 ≤ n → Gen.lineCoordinates start stop (some (n : Int)) none adj false
+        = .ok (nodes start ((stop - start) / ((n - 1 : Nat) : Rat)) (n - 1) false)) ∧
+    (1 ≤ n → Gen.lineCoordinates start stop (some (n : Int)) none adj true
+        = .ok (nodes start ((stop - start) / (n : Rat)) n true)) := by
+  constructor
+  · intro hn; rw [gen_lc_some, line_size_normal_form start stop n hn]
+  · intro hn; rw [gen_lc_some, line_size_pixel_normal_form start stop n hn]
+
+/-- The translated `line_coordinates` rejects both / neither of size and spacing and an unknown `adjust`. -/
+theorem src_line_rejects (start stop sp : Rat) (n : Nat) (adj : String) (px : Bool) :
+    Gen.lineCoordinates start stop (some (n : Int)) (some sp) adj px = .error .valueError ∧
+    Gen.lineCoordinates start stop none none adj px = .error .valueError ∧
+    (adj ≠ "spacing" → adj ≠ "region" → Gen.lineCoordinates start stop none (some sp) adj px = .error .valueError) := by
+  refine ⟨?_, ?_, ?_⟩
+  · have := gen_line_coordinates_eq_model start stop (some n) (some sp) adj px
+    simp only [Option.map] at this
+    exact this.trans (both_size_and_spacing_rejected start stop sp n (adjOf adj) px)
+  · have := gen_line_coordinates_eq_model start stop none none adj px
+    simp only [Option.map] at this
+    rw [this, neither_size_nor_spacing_rejected]
+  · intro h1 h2
+    rw [gen_lc_none]
+    have : adjOf adj = .bad := by simp [adjOf, h1, h2]
+    rw [this, bad_adjust_rejected]
+
+/-- The translated `grid_coordinates` core: easting from (W, E) with `shape[1]` / `spacing[1]`, northing from (S, N) with `shape[0]` / `spacing[0]`. -/
+theorem src_grid_lines (w e s n : Rat) (hwe : w ≤ e) (hsn : s ≤ n) (adj : String) (px : Bool) :
+    (∀ nn ne : Nat, Gen.gridLines w e s n (some ((nn : Int), (ne : Int))) none adj px =
+      (do let east ← lineCoordinates w e (some ne) none (adjOf adj) px
+          let north ← lineCoordinates s n (some nn) none (adjOf adj) px
+          pure (east, north))) ∧
+    (∀ sn se : Rat, Gen.gridLines w e s n none (some [sn, se]) adj px =
+      (do let east ← lineCoordinates w e none (some se) (adjOf adj) px
+          let north ← lineCoordinates s n none (some sn) (adjOf adj) px
+          pure (east, north))) := by
+  constructor
+  · intro nn ne
+    have := gen_grid_lines_eq_model w e s n (some (nn, ne)) none adj px
+    simp only [Option.map] at this
+    rw [this, gridLines_shape w e s n hwe hsn]
+  · intro sn se
+    have := gen_grid_lines_eq_model w e s n none (some [sn, se]) adj px
+    simp only [Option.map] at this
+    rw [this, gridLines_spacing w e s n hwe hsn]
+
+
 end Verde.C07
